@@ -1243,6 +1243,8 @@ ecdsa_sign(ec_curve_p curve, bn_p hash, bn_p priv_key, bn_p rnd,
 	/* R = rnd*G */
 	/* Slow operation. */
 	BN_RET_ON_ERR(ec_point_mult_bp(sign_s, curve, &R));
+	if (0 != ec_point_is_at_infinity(&R)) /* rnd = 0: k*G = O, R.x is stale. */
+		return (-1);
 	/* r = Rx mod n */
 	BN_RET_ON_ERR(bn_mod(&R.x, &curve->n, &curve->n_mod_rd_data));
 	if (0 != bn_is_zero(&R.x))
